@@ -24,9 +24,19 @@ import time
 from pathlib import Path
 
 VERIF = Path(__file__).resolve().parent.parent
-REPO = Path(os.environ.get("VERIF_REPO", "/repo"))
-HARN = VERIF / "harnesses"
-WORK = VERIF / ".work"
+REPO = Path(os.environ.get("VERIF_REPO", "/repo")).resolve()
+SRC_HARN = VERIF / "harnesses"
+if REPO == Path("/repo"):
+    ALT = ""
+    HARN = SRC_HARN
+    WORK = VERIF / ".work"
+else:
+    # development aid (seed testing without touching /repo): run against another checkout by
+    # copying the harness crates with their path dependencies rewritten.  Registered checks never
+    # use this; they always run against /repo.
+    ALT = "alt-" + re.sub(r"[^A-Za-z0-9]+", "_", str(REPO)).strip("_") + "-"
+    WORK = VERIF / ".work" / ALT.rstrip("-")
+    HARN = WORK / "harnesses"
 TARGETS = VERIF / ".kani-target"
 EVID = VERIF / "evidence"
 REPLAYS = VERIF / "replays"
@@ -71,7 +81,7 @@ def scan_registry():
     `// @family k=v..` annotates every such line up to `// @end`.  Other `// @key text` lines after
     the opener (bounds / encodes / assumes / catches) are attached as free text."""
     hs = []
-    for crate in sorted(HARN.iterdir()):
+    for crate in sorted(SRC_HARN.iterdir()):
         src = crate / "src"
         if not src.is_dir():
             continue
@@ -132,12 +142,22 @@ def run_cmd(cmd, cwd, log, timeout, mem_gb, env=None):
     return rc, to, time.time() - t0
 
 
+def sync_alt_harnesses():
+    if not ALT:
+        return
+    if HARN.exists():
+        shutil.rmtree(HARN)
+    shutil.copytree(SRC_HARN, HARN, ignore=shutil.ignore_patterns("target", "Cargo.lock"))
+    for toml in HARN.glob("*/Cargo.toml"):
+        toml.write_text(toml.read_text().replace('"/repo/', f'"{REPO}/'))
+
+
 def prepare_group(group):
     d = HARN / group
     lock = REPO / "Cargo.lock"
     if lock.exists():
         shutil.copy(lock, d / "Cargo.lock")
-    (TARGETS / group).mkdir(parents=True, exist_ok=True)
+    (TARGETS / (ALT + group)).mkdir(parents=True, exist_ok=True)
 
 
 CHECK_RE = re.compile(r"^Check (\d+): (\S+)\n\t - Status: (\w+)\n\t - Description: \"(.*)\"(?:\n\t - Location: (.*))?", re.M)
@@ -184,7 +204,7 @@ def run_harness(h, tier, extra_args=()):
     logdir.mkdir(parents=True, exist_ok=True)
     log = logdir / f"{h.name}.log"
     cmd = ["cargo", "kani", "-Z", "stubbing", "--exact", "--harness", h.path,
-           "--target-dir", str(TARGETS / h.group)] + list(extra_args)
+           "--target-dir", str(TARGETS / (ALT + h.group))] + list(extra_args)
     timeout = min(h.timeout, TIER_CAP[tier]) if tier == "quick" else max(h.timeout, 1)
     rc, to, wall = run_cmd(cmd, HARN / h.group, log, timeout, h.mem_gb)
     text = log.read_text(errors="replace")
@@ -250,7 +270,7 @@ def extract_playback(h, scratch):
     shutil.copytree(HARN / "common", scratch / "common")
     log = scratch / "extract.log"
     cmd = ["cargo", "kani", "-Z", "stubbing", "-Z", "concrete-playback", "--concrete-playback=print",
-           "--exact", "--harness", h.path, "--target-dir", str(TARGETS / h.group)]
+           "--exact", "--harness", h.path, "--target-dir", str(TARGETS / (ALT + h.group))]
     run_cmd(cmd, scratch / h.group, log, max(h.timeout * 2, 600), h.mem_gb)
     text = log.read_text(errors="replace")
     m = re.search(r"```\n(.*?#\[test\].*?)```", text, re.S)
@@ -281,7 +301,7 @@ def native_replay(h, test_name, test_src, scratch):
     out = {}
     for profile in ("dev", "release"):
         env, cargo = playback_env(profile == "release")
-        env["CARGO_TARGET_DIR"] = str(TARGETS / f"playback-{h.group}")
+        env["CARGO_TARGET_DIR"] = str(TARGETS / f"{ALT}playback-{h.group}")
         cmd = [cargo, "test", "--lib", "--target", "x86_64-unknown-linux-gnu", "-Zhost-config",
                "-Ztarget-applies-to-host", '--config=host.rustflags=["--cfg=kani_host"]']
         if profile == "release":
@@ -346,6 +366,7 @@ def check(prop, tier, only=None, jobs=None):
         import random
         random.Random(seed).shuffle(hs)
         hs.sort(key=lambda h: -(h.timeout))
+    sync_alt_harnesses()
     for g in sorted({h.group for h in hs}):
         prepare_group(g)
     jobs = jobs or int(os.environ.get("VERIF_JOBS", "0") or 0) or min(14, os.cpu_count() or 4)
@@ -498,7 +519,7 @@ def write_evidence(prop, tier, seed, allh, results, violations, inconclusive, kn
         "wall_s": round(wall, 1),
         "violations": len(violations),
     }
-    dest = (WORK / f"evidence-partial-{prop}.json") if partial else (EVID / f"{prop}.json")
+    dest = (WORK / f"evidence-partial-{prop}.json") if (partial or ALT) else (EVID / f"{prop}.json")
     dest.write_text(json.dumps(ev, indent=1))
 
 
